@@ -230,16 +230,17 @@ def validate_trace(trace_path, timeout=3000, module="TraceContract", _prefix=Fal
     return viol, st
 
 
-def build_macrolab(features=()):
+def build_macrolab(features=(), debug_assertions=True):
     """Compile the macro crate's own sources (from the repo working tree) together with
     macrolab/lab.rs into a plain binary, reusing the dependency rlibs cargo built for gecs_macros."""
     rlib, deps = build_gecs(features, False)
     h = hashlib.sha256()
     _hash_files(tree_files(REPO, ["macros/src"], {".rs"}) + [os.path.join(VERIF, "macrolab", "lab.rs")], h)
     h.update(repr(sorted(features)).encode())
+    h.update(repr(debug_assertions).encode())
     outdir = os.path.join(BUILD, "hbin")
     os.makedirs(outdir, exist_ok=True)
-    binp = os.path.join(outdir, "macrolab-%s" % h.hexdigest()[:16])
+    binp = os.path.join(outdir, "macrolab-%s%s" % (h.hexdigest()[:16], "" if debug_assertions else "-nda"))
     if os.path.exists(binp):
         return binp
     main_rs = os.path.join(BUILD, "macrolab_main_%d.rs" % os.getpid())
@@ -256,6 +257,9 @@ def build_macrolab(features=()):
         cmd += ["--extern", "%s=%s" % (crate, os.path.join(deps, cands[-1]))]
     for f in features:
         cmd += ["--cfg", 'feature="%s"' % f]
+    if not debug_assertions:
+        # the profile a release build of a client compiles the proc-macro crate in
+        cmd += ["-C", "debug-assertions=off", "-C", "overflow-checks=off", "-C", "opt-level=1"]
     rc, out, dt = sh(cmd, timeout=1200, check=False)
     os.remove(main_rs)
     if rc != 0:
